@@ -1068,6 +1068,19 @@ def runCtl (tok : List String) : String × String :=
      "add=0000 upd=0000 del=0000 get=NullParameter,NullParameter,NullParameter,NullParameter fltadd=NullParameter")
   | _ => bad
 
+/-- `ffi atomic <n regs> <transactions per thread> <reads> <threads> [<flags ⊆ {d,w}>]` -/
+def runAtomic (rest : List String) : String × String :=
+  let okNums (n th : String) : Bool :=
+    n.isNat && th.isNat && 1 ≤ n.toNat! && n.toNat! ≤ 125 && 1 ≤ th.toNat! && th.toNat! ≤ 16
+  match rest with
+  | [n, tx, rd, th] =>
+    if okNums n th && tx.isNat && rd.isNat then both (atomicExpected none) else ("bad-case", "bad-case")
+  | [n, tx, rd, th, flags] =>
+    if okNums n th && tx.isNat && rd.isNat && !flags.isEmpty && flags.toList.all (fun c => c = 'd' || c = 'w') then
+      (atomicExpected (some flags), "uniform torn=0 lost=0 work=ok")
+    else ("bad-case", "bad-case")
+  | _ => ("bad-case", "bad-case")
+
 /-! ### dispatcher -/
 
 def runFfi (tok : List String) : String × String :=
@@ -1076,7 +1089,7 @@ def runFfi (tok : List String) : String × String :=
   | _ :: "wres" :: rest => runWres rest
   | _ :: "op" :: rest => runOpCase rest
   | _ :: "db" :: rest => runDb rest
-  | _ :: "atomic" :: _ => both "uniform"
+  | _ :: "atomic" :: rest => runAtomic rest
   | _ :: "flt" :: rest => runFfiFlt rest
   | _ :: "fltadd" :: rest => runFltAdd rest
   | _ :: "fnet" :: rest => runFnet rest
